@@ -45,6 +45,15 @@ def rechunk_family(tier):
             for mem in (None, "tight"):
                 for irr in (True, False):
                     out.append(dict(op="rechunk", inputs=[inp(shape, c1)], params=dict(chunks=list(c2), allow_irregular=irr), _mem=mem))
+    # mixed geometries with an explicit min_mem: multi-stage plans in which one axis shrinks from a partial read chunk
+    for (N, M) in ((12, 6), (20, 6)) if tier == "quick" else ((12, 6), (20, 6), (30, 12)):
+        for s0 in (5, 7, 10):
+            for t0 in (1, 2, 3):
+                for irr in (True, False):
+                    for shape, sc, tc in (((N, M), (s0, 1), (t0, M)), ((M, N), (1, s0), (M, t0))):
+                        cm = 8 * max(sc[0] * sc[1], tc[0] * tc[1])
+                        for f in (5, 5.5, 6, 7, 9, 12):
+                            out.append(dict(op="rechunk", inputs=[inp(shape, sc)], params=dict(chunks=list(tc), allow_irregular=irr, min_mem=cm // 2), _mem=int(cm * f)))
     return out
 
 
@@ -66,6 +75,8 @@ def eval_case(case, seed, tier):
     spec_kw = None
     if case.get("_mem") == "tight":
         spec_kw = dict(allowed_mem=tight_mem(case))
+    if isinstance(case.get("_mem"), int):
+        spec_kw = dict(allowed_mem=case["_mem"])
     if case["op"] == "rechunk" and "allow_irregular" in case["params"]:
         import cubed
         from ..catalog import OPS, _t
